@@ -32,6 +32,55 @@ def segmentations(rnd, data, small_ok=True):
         out.append((name, '|'.join(w(p) for p in parts if p) or 'w'))
     return out
 
+# ---- a reference port of the automatic chunker (buzhash.c + the automatic branch of zck_write), used only to CONSTRUCT contents
+# whose boundaries fall where a generator wants them; the verdict never depends on it
+_BT = []
+def _buz_table():
+    if not _BT:
+        import build as B
+        src = open(os.path.join(B.REPO, 'src/lib/buzhash/buzhash.c')).read()
+        body = src[src.index('buzhash_table[]'):]
+        body = body[:body.index('};')]
+        _BT.extend(int(x, 16) for x in re.findall(r'0x[0-9a-fA-F]{8}', body))
+        assert len(_BT) == 256
+    return _BT
+
+def _rol32(v, s):
+    s %= 32
+    return ((v << s) | (v >> (32 - s))) & 0xffffffff if s else v
+
+def auto_boundaries(data, amin=8192, amax=131072, width=48, bits=15):
+    """chunk lengths the automatic chunker gives for `data` written in one call (last chunk = what is left)"""
+    T = _buz_table(); mask = (1 << bits) - 1
+    sizes = []; dc = 0; win = []; loc = 0; h = 0
+    i = 0; n = len(data)
+    while i < n:
+        c = data[i]
+        if len(win) < width:
+            win.append(c)
+            if len(win) < width: h ^= _rol32(T[c], width - len(win)); out = 1
+            else: h ^= T[c]; out = h
+        else:
+            h = _rol32(h, 1) ^ _rol32(T[win[loc]], width) ^ T[c]
+            win[loc] = c; loc = (loc + 1) % width; out = h
+        if (out & mask) == 0 or dc >= amax:
+            if dc < amin: continue             # refused: the same byte is fed again
+            sizes.append(dc); dc = 0; win = []; loc = 0; h = 0
+            continue                           # the same byte starts the next chunk
+        dc += 1; i += 1
+    sizes.append(dc)
+    return sizes
+
+def content_with_boundary_near_min(rnd, amin=8192, window=(1, 40), tries=4000):
+    """content whose FIRST automatic chunk ends `window` bytes after the automatic minimum size: found by trying random
+    contents (a boundary within 40 bytes of a given point has probability ~0.1% per content)"""
+    for _ in range(tries):
+        d = rnd.randbytes(amin + 200)
+        first = auto_boundaries(d, amin=amin)[0]
+        if amin + window[0] <= first <= amin + window[1]:
+            return d + rnd.randbytes(3000), first
+    return None, None
+
 def cfg_str(**k):
     return ','.join('%s=%s' % (a, b) for a, b in k.items())
 
